@@ -395,6 +395,9 @@ func checkC19(c *Ctx) {
 	}
 
 	checkGeoIPReplaced(c, "C19.2")
+	// the phantom-subnet part: the loaded selector replaces the previous one as a whole; no generation is carried over,
+	// added or edited by station code (shared with C07.8)
+	checkSelectorReplaced(c, "C19.2")
 
 	// the policy part: OnReload installs the parsed lists of the NEW configuration field by field (all of them, each
 	// from the field of the same name), and does not re-parse into the live object
